@@ -1,12 +1,141 @@
 /-
-Driver commands of property C07 (core Lean only).  Command names start with "c07.".
+Driver commands of property C07 (core Lean only).
+
+  c07.run <history>        one token per executed operation: fnv64 of the observation after it, joined by '.'
+  c07.runv <k> <history>   the observation after operation k, with marshalled text/binary in hex
+
+History syntax: operations separated by ';', fields by ',', byte strings in hex ('-' = empty); see
+go/cmd/harness/c07.go (c07Op.enc).  The observation format is that of c07World.obs.
 -/
 import Hts.Drv.Util
+import Hts.Model.Header
 namespace Hts.Drv.C07
-open Hts.Drv
+open Hts.Drv Hts.Model.Header
+
+def tagOf (b : Bytes) : Option Tag :=
+  match b with
+  | [x, y] => some (x, y)
+  | _ => none
+
+def parseOthers (s : String) : Option Tags :=
+  if s == "-" then some []
+  else (s.splitOn "+").mapM fun kv =>
+    match kv.splitOn ":" with
+    | [k, v] => do some (← tagOf (← parseHex k), ← parseHex v)
+    | _ => none
+
+def parseNats (s : String) : Option (List Nat) :=
+  if s == "-" then some [] else (s.splitOn ".").mapM parseNat
+
+def parseOp (s : String) : Option Op :=
+  match s.splitOn "," with
+  | ["h0"] => some .h0
+  | ["hd", t, ps] => do some (.hd (← parseHex t) (← parseNats ps))
+  | ["pa", t] => do some (.pa (← parseHex t))
+  | ["de", t] => do some (.de (← parseHex t))
+  | ["um", h, t] => do some (.um (← parseNat h) (← parseHex t))
+  | ["co", h, t] => do some (.co (← parseNat h) (← parseHex t))
+  | ["sh", h, v, so, go] => do some (.sh (← parseNat h) (← parseHex v) (← parseInt so) (← parseInt go))
+  | ["hs", h, t, v] => do some (.hs (← parseNat h) (← tagOf (← parseHex t)) (← parseHex v))
+  | ["nr", n, l, m5, as, sp, ur, o] => do
+    let u ← parseHex ur
+    some (.nr (← parseHex n) { len := ← parseInt l, md5 := ← parseHex m5, asm := ← parseHex as, sp := ← parseHex sp,
+                               uri := if u.isEmpty then none else some (0, u), other := ← parseOthers o })
+  | ["ng", n, cn, ds, fo, ks, lb, pg, pl, pu, sm, dt, pi, o] => do
+    some (.ng (← parseHex n) { cn := ← parseHex cn, ds := ← parseHex ds, dt := ← parseHex dt, fo := ← parseHex fo,
+                               ks := ← parseHex ks, lb := ← parseHex lb, pg := ← parseHex pg, pi := ← parseInt pi,
+                               pl := ← parseHex pl, pu := ← parseHex pu, sm := ← parseHex sm, other := ← parseOthers o })
+  | ["np", n, pn, cl, pp, vn, o] => do
+    some (.np (← parseHex n) { pn := ← parseHex pn, cl := ← parseHex cl, pp := ← parseHex pp, vn := ← parseHex vn,
+                               other := ← parseOthers o })
+  | ["ar", h, p] => do some (.ar (← parseNat h) (← parseNat p))
+  | ["rr", h, p] => do some (.rr (← parseNat h) (← parseNat p))
+  | ["sr", p, n] => do some (.sr (← parseNat p) (← parseHex n))
+  | ["gr", h, i] => do some (.gr (← parseNat h) (← parseNat i))
+  | ["cr", p] => do some (.cr (← parseNat p))
+  | ["ag", h, p] => do some (.ag (← parseNat h) (← parseNat p))
+  | ["rg", h, p] => do some (.rg (← parseNat h) (← parseNat p))
+  | ["sg", p, n] => do some (.sg (← parseNat p) (← parseHex n))
+  | ["gg", h, i] => do some (.gg (← parseNat h) (← parseNat i))
+  | ["cg", p] => do some (.cg (← parseNat p))
+  | ["ap", h, p] => do some (.ap (← parseNat h) (← parseNat p))
+  | ["rp", h, p] => do some (.rp (← parseNat h) (← parseNat p))
+  | ["sp", p, n] => do some (.sp (← parseNat p) (← parseHex n))
+  | ["gp", h, i] => do some (.gp (← parseNat h) (← parseNat i))
+  | ["cp", p] => do some (.cp (← parseNat p))
+  | ["cl", h] => do some (.cl (← parseNat h))
+  | ["mg", hs] => do some (.mg (← parseNats hs))
+  | _ => none
+
+def parseHist (s : String) : Option (List Op) := (s.splitOn ";").mapM parseOp
+
+def fnv64 (bs : List Nat) : UInt64 :=
+  bs.foldl (fun h c => (h ^^^ c.toUInt64) * 1099511628211) 14695981039346656037
+
+def hex16 (x : UInt64) : String :=
+  String.ofList ((List.range 16).map fun i => hexDigit (((x >>> (4 * (15 - i)).toUInt64) &&& 15).toNat))
+
+def resStr : Res → String
+  | .ok => "ok" | .err => "err" | .panic => "panic" | .skip => "skip"
+
+def bytesOut (verbose : Bool) (b : Bytes) : String := if verbose then hexOfNats b else hex16 (fnv64 b)
+
+def idNames (l : List (Int × Bytes)) : String :=
+  String.join (l.map fun p => s!"{p.1}.{hexOfNats p.2}/")
+
+def poolStr {α : Type} (k : KW α) (p : List (Option Nat)) : String :=
+  String.join (p.map fun e =>
+    match e with
+    | none => "nil/"
+    | some o =>
+      match k.heap[o]? with
+      | some x => s!"{x.id}.{hexOfNats x.name}/"
+      | none => "nil/")
+
+def linkStr (w : World) (hn : Nat) (ls : List (List Nat)) : String :=
+  let items := match w.refs.tabs[hn]? with
+    | some t => t.items
+    | none => []
+  String.join ((ls.zipIdx).map fun (l, i) =>
+    String.join ((l.zipIdx).map fun (o, j) =>
+      match w.refs.heap[o]? with
+      | some x =>
+        let owned := if idx items x.id == some o then 1 else 0
+        s!"{i}.{j}.{x.id}.{hexOfNats x.name}.{owned}/"
+      | none => s!"{i}.{j}.nil/"))
+
+def obs (verbose : Bool) (o : StepOut) : String :=
+  let w := o.w
+  let hs := (List.range w.hdrs.length).map fun k =>
+    if !live w k then s!"|H{k}=dead"
+    else s!"|H{k}=T:{bytesOut verbose (marshalText w k)},B:{bytesOut verbose (marshalBinary w k)},R:{idNames (w.refs.names k)},G:{idNames (w.rgs.names k)},P:{idNames (w.pgs.names k)}"
+  let ls := match o.links with
+    | some (hn, ls) => "|L:" ++ linkStr w hn ls
+    | none => ""
+  resStr o.res ++ String.join hs ++ "|RP:" ++ poolStr w.refs w.rpool ++ "|GP:" ++ poolStr w.rgs w.gpool ++
+    "|PP:" ++ poolStr w.pgs w.ppool ++ ls
+
+def token (s : String) : String := hex16 (fnv64 (s.toList.map Char.toNat))
+
+/-- run a history; the history ends after a panic (the Go state is unspecified then) -/
+def runHist (w : World) : List Op → List String → List String
+  | [], acc => acc.reverse
+  | op :: ops, acc =>
+    let o := step goExt w op
+    let acc := token (obs false o) :: acc
+    if o.res == .panic then acc.reverse else runHist o.w ops acc
+
+def runVerbose (w : World) : List Op → Nat → String
+  | [], _ => "end"
+  | op :: ops, k =>
+    let o := step goExt w op
+    if k = 0 then obs true o
+    else if o.res == .panic then "end-after-panic" else runVerbose o.w ops (k - 1)
 
 def handle (cmd : String) (args : List String) : Option String :=
   match cmd, args with
+  | "c07.run", [h] => do some (".".intercalate (runHist {} (← parseHist h) []))
+  | "c07.runv", [k, h] => do some (runVerbose {} (← parseHist h) (← parseNat k))
   | _, _ => none
 
 end Hts.Drv.C07
